@@ -27,7 +27,7 @@ pub const WORK_K: u64 = 30;
 
 fn plan(tier: Tier) -> Vec<Workload> {
     vec![
-        Workload::new("turns", tier.pick(20_000, 400_000)),
+        Workload::new("turns", tier.pick(100_000, 2_000_000)),
         Workload::new("bounds", tier.pick(60_000, 600_000)),
         Workload::new("nonterm", tier.pick(64, 640)),
         Workload::new("datascan", 16),
